@@ -411,6 +411,68 @@ def hooklist():
     return bad
 
 
+def generation_attr():
+    """the generation counter of a base registry is an attribute access out of the verifying lookups: code run by it
+    (a property) re-bases the child / notifies it again while the snapshot is being compared or taken"""
+    from zope.interface.adapter import VerifyingAdapterRegistry
+    bad = []
+
+    class IR(Interface):
+        pass
+
+    class IP(Interface):
+        pass
+
+    class Base(VerifyingAdapterRegistry):
+        hook = None
+
+        @property
+        def _generation(self):
+            h = self.__dict__.get('hook')
+            if h is not None:
+                self.__dict__['hook'] = None
+                h()
+            return self.__dict__.get('_gen', 0)
+
+        @_generation.setter
+        def _generation(self, v):
+            self.__dict__['_gen'] = v
+
+    for entry in ('lookup', 'lookupAll', 'subscriptions'):
+        bases = [Base() for _ in range(6)]
+        child = VerifyingAdapterRegistry(tuple(bases))
+        child.register([IR], IP, '', 'x')
+        child.subscribe([IR], IP, 's')
+        ask = {'lookup': lambda: child.lookup([IR], IP, ''), 'lookupAll': lambda: tuple(child.lookupAll([IR], IP)),
+               'subscriptions': lambda: tuple(child.subscriptions([IR], IP))}[entry]
+        want = ask()
+        junk = []
+
+        def hook():
+            child.__bases__ = tuple(bases[:2])        # releases the snapshot the lookup is iterating
+            junk.extend(tuple(range(1000 + i, 1006 + i)) for i in range(50))
+        bases[0].hook = hook
+        try:
+            got = ask()
+            again = ask()
+        except Exception as e:
+            bad.append(('generation-attribute', '%s while a base registry\'s _generation attribute re-based the registry: %s: %s' % (entry, type(e).__name__, e)))
+            continue
+        if got != want or again != want:
+            bad.append(('generation-attribute', '%s answered %r then %r, expected %r' % (entry, got, again, want)))
+    # references: a re-entrant changed() while the snapshot is taken must not leave the inner snapshot behind
+    base = Base()
+    child = VerifyingAdapterRegistry((base,))
+    before = sys.getrefcount(base)
+    for i in range(200):
+        base.hook = lambda: child._v_lookup.changed(None)
+        child._v_lookup.changed(None)
+    after = sys.getrefcount(base)
+    if after - before > 5:
+        bad.append(('generation-attribute-leak', '200 re-entrant changed() calls while the generation snapshot is taken: the reference count of the base registry went from %d to %d' % (before, after)))
+    return bad
+
+
 def threads(seconds):
     bad = []
     reg = AdapterRegistry()
@@ -449,7 +511,7 @@ def threads(seconds):
 
 
 def replay(kind, *args):
-    bad = {'one': one, 'refcounts': refcounts, 'hooklist': hooklist, 'threads': threads,
+    bad = {'one': one, 'refcounts': refcounts, 'hooklist': hooklist, 'threads': threads, 'generation_attr': generation_attr,
            'walk': lambda *a: walk(*a)[0]}[kind](*args)
     for sig, what in bad[:6]:
         print('violated:', sig, what)
@@ -460,7 +522,7 @@ def run(ctx):
     import itertools
     ctx.rule = ('walk interruption: a mutation (%r) fired from the k-th container access inside the uncached walk of lookup/lookup1/lookupAll/subscriptions, every k; ' % (WALK_MUT,) +
                 'product: registry flavour x call-out point %r x mutation %r x entry point %r x name {"", "n"}; plus reference-count '
-                'deltas over 200 calls on 9 normal/error exits, the hook that empties the hook list, and (thorough) 3 lookup '
+                'deltas over 200 calls on 9 normal/error exits, the hook that empties the hook list, a base registry whose _generation attribute re-bases / re-notifies the verifying registry while its snapshot is compared or taken, and (thorough) 3 lookup '
                 'threads against a registering thread; distinct = points of the product' % (POINT, MUTATION, ENTRY))
     ctx.bounds = 'one mutation per interrupted call'
     for flavour, point, mutation, entry, name in itertools.product('AV', POINT, MUTATION, ENTRY, ('', 'n')):
@@ -488,6 +550,9 @@ def run(ctx):
     ctx.case('hooklist')
     for sig, what in hooklist():
         ctx.violation(sig, what, 'from falsify.C11 import replay\nreplay("hooklist")\n')
+    ctx.case('generation_attr')
+    for sig, what in generation_attr():
+        ctx.violation(sig, what, 'from falsify.C11 import replay\nreplay("generation_attr")\n')
     secs = 1.0 if ctx.tier == 'quick' else 15.0
     ctx.case('threads')
     for sig, what in threads(secs):
